@@ -118,6 +118,17 @@ fn check_range(
                 ctx.dig.write(&r.0);
                 ctx.dig.write(&r.1);
             }
+            // the separately overridable keys-only / values-only iterations must agree as well
+            let keys = catch_unwind(AssertUnwindSafe(|| st.range_keys(start.as_deref(), end.as_deref(), order).collect::<Vec<_>>()));
+            let vals = catch_unwind(AssertUnwindSafe(|| st.range_values(start.as_deref(), end.as_deref(), order).collect::<Vec<_>>()));
+            let exp_keys: Vec<Vec<u8>> = exp.iter().map(|r| r.0.clone()).collect();
+            let exp_vals: Vec<Vec<u8>> = exp.iter().map(|r| r.1.clone()).collect();
+            if keys.as_ref().ok() != Some(&exp_keys) || vals.as_ref().ok() != Some(&exp_vals) {
+                ctx.fail(
+                    if what == "base" { "C06.base_modified" } else { "C06.range_mismatch" },
+                    format!("{} range_keys / range_values({:?},{:?},desc={}) at depth {} disagree with the ordered-map model", what, start.as_ref().map(|x| hex(x)), end.as_ref().map(|x| hex(x)), desc, depth),
+                );
+            }
             if got != exp {
                 // classify
                 let mut dup = false;
@@ -334,15 +345,24 @@ impl Engine for Kv06 {
         let mut ops = vec![];
         let mut depth = 1;
         let mut last_removed: Option<Vec<u8>> = None;
+        let mut written: Vec<(Vec<u8>, Vec<u8>)> = base_init.clone();
         for _ in 0..nops {
             let op = match rng.weighted(&w) {
                 0 => {
-                    // bias: set right after delete of the same key
-                    let k = match (&last_removed, rng.chance(1, 4)) {
-                        (Some(k), true) => k.clone(),
-                        _ => gen_key(rng, &pool),
-                    };
-                    Op::Set { k, v: val(rng) }
+                    if !written.is_empty() && rng.chance(1, 5) {
+                        // write back exactly a (key, value) pair that was current before (e.g. after a delete)
+                        let (k, v) = rng.pick(&written).clone();
+                        Op::Set { k, v }
+                    } else {
+                        // bias: set right after delete of the same key
+                        let k = match (&last_removed, rng.chance(1, 4)) {
+                            (Some(k), true) => k.clone(),
+                            _ => gen_key(rng, &pool),
+                        };
+                        let v = val(rng);
+                        written.push((k.clone(), v.clone()));
+                        Op::Set { k, v }
+                    }
                 }
                 1 => {
                     let k = gen_key(rng, &pool);
